@@ -1,4 +1,5 @@
 import CsVerif.Model.C03
+import CsVerif.Gen.PyBeacon
 /-! Line-protocol driver for the C03 model (see tools/harness/c03.py for the matching renderers). -/
 namespace C03
 open Proto
@@ -101,6 +102,95 @@ def showDerived (cfg : List RawSetting) : String :=
   let pk := match publicKey cfg with | none => "unmodelled" | some b => showBytes b
   s!"pairs={pairs} uris={us} domains={ds} kd={kd} proto={pr} port={showSVal (port cfg)} wm={showSVal (watermark cfg)} trial={showBool (isTrial cfg)} pk={pk}"
 
+/-! ### `g-*` streams: the definitions TRANSLATED from the source (Gen/PyBeacon.lean), rendered from `PyU.V` in the format of
+the corresponding hand-model stream; a value of an unexpected shape is rendered `?…` (and so differs from the real code) -/
+
+open PyU (V) in
+def vText : V → String
+  | .str cs => String.ofList (cs.map Char.ofNat)
+  | _ => "?text"
+
+open PyU (V) in
+def vList (f : V → String) : V → String
+  | .list xs => showList (xs.map f)
+  | _ => "?list"
+
+open PyU (V) in
+def vTrItem : V → String
+  | .tuple [n, v] =>
+    (match n with | .none => "None" | .str _ => vText n | _ => "?name") ++ "=" ++
+      (match v with
+        | .bool true => "T"
+        | .bytes b => showBytes b
+        | .str _ => showStrHex (vText v)
+        | _ => "?value")
+  | _ => "?item"
+
+open PyU (V) in
+def vRcItem : V → String
+  | .tuple [n, v] =>
+    vText n ++ "=" ++ (match v with | .bool true => "T" | .int k => toString k | _ => "?value")
+  | _ => "?item"
+
+open PyU (V) in
+def vExItem : V → String
+  | .none => "none"
+  | .str cs => showCps (some cs)
+  | _ => "?item"
+
+open PyU (V) in
+def vItItem : V → String
+  | .tuple [n, .bytes b] => vText n ++ "=" ++ showBytes b
+  | _ => "?item"
+
+open PyU (V) in
+def vBytes : V → String
+  | .bytes b => showBytes b
+  | _ => "?bytes"
+
+open PyU (V) in
+def vLatin : V → String
+  | .str cs => "s" ++ Hex.encode (cs.map fun c => UInt8.ofNat c)
+  | _ => "?str"
+
+/-- fuel for the translated loops: every iteration but the last consumes at least one byte -/
+def gFuel (d : Bytes) : Nat := d.length + 2
+
+def gstep : List String → String
+  | ["gtr", build, d] =>
+    match bytesTok d with
+    | some d => showPy (vList vTrItem) (Gen.PyBeacon.parse_transform_binary (gFuel d) (.bytes d) (PyU.lit build))
+    | none => "bad-op"
+  | ["grc", d] =>
+    match bytesTok d with
+    | some d => showPy (vList vRcItem) (Gen.PyBeacon.parse_recover_binary (gFuel d) (.bytes d))
+    | none => "bad-op"
+  | ["gex", d] =>
+    match bytesTok d with
+    | some d => showPy (vList vExItem) (Gen.PyBeacon.parse_execute_list (gFuel d) (.bytes d))
+    | none => "bad-op"
+  | ["git", d] =>
+    match bytesTok d with
+    | some d => showPy (vList vItItem) (Gen.PyBeacon.parse_process_injection_transform_steps (.bytes d))
+    | none => "bad-op"
+  | ["ggg", d] =>
+    match bytesTok d with
+    | some d => showPy (vList vText) (Gen.PyBeacon.parse_gargle (gFuel d) (.bytes d))
+    | none => "bad-op"
+  | ["gpv", d] =>
+    match bytesTok d with
+    | some d => showPy vBytes (Gen.PyBeacon.parse_pivot_frame (.bytes d))
+    | none => "bad-op"
+  | ["gnts", d] =>
+    match bytesTok d with
+    | some d => showPy vLatin (Gen.PyBeacon.null_terminated_str (.bytes d))
+    | none => "bad-op"
+  | ["gntb", d] =>
+    match bytesTok d with
+    | some d => showPy vBytes (Gen.PyBeacon.null_terminated_bytes (.bytes d))
+    | none => "bad-op"
+  | _ => "bad-op"
+
 def step : List String → String
   | ["tr", build, d] =>
     match bytesTok d with
@@ -164,6 +254,6 @@ def step : List String → String
     match settingsTok rest with
     | some cfg => showDerived cfg
     | none => "bad-op"
-  | _ => "bad-op"
+  | ws => gstep ws
 
 end C03
